@@ -565,9 +565,12 @@ fn compute_intersection_residue_class(
         // residue_class = base_left    (modulo stride_left)
         // ```
         // The `% lcm` operations are there to reduce the risk of integer overflows
-        let residue_class = ((base_right % lcm) / gcd * (left_inverse * stride_left)) % lcm // = base_right / gcd * gcd (modulo stride_right) 
-            + ((base_left % lcm) / gcd * (right_inverse * stride_right)) % lcm // = base_left / gcd * gcd (modulo stride_left)
-            + base_left % gcd; // = base_left % gcd = base_right % gcd
+        // The common (non-negative) remainder of both start values modulo the gcd.
+        // Note that the `%` operator would yield different values for start values of different sign.
+        let base_remainder = base_left.rem_euclid(gcd);
+        let residue_class = (((base_right - base_remainder) % lcm) / gcd * (left_inverse * stride_left)) % lcm // = base_right - base_remainder (modulo stride_right)
+            + (((base_left - base_remainder) % lcm) / gcd * (right_inverse * stride_right)) % lcm // = base_left - base_remainder (modulo stride_left)
+            + base_remainder; // = base_left (modulo gcd) = base_right (modulo gcd)
                                // Ensure that the residue class is not negative
         let residue_class = ((residue_class % lcm) + lcm) % lcm;
 
